@@ -61,6 +61,11 @@ func init() {
 		return s
 	})
 	reg("Int64", func(fr *frame, a []value) value {
+		if _, ok := fr.i.x.gridParam(); ok {
+			s := fr.i.x.freshInt("i", fr.i.x.gridMag())
+			fr.i.x.res.Draws = append(fr.i.x.res.Draws, Draw{Kind: "i64", Term: s.t})
+			return s
+		}
 		s := fr.i.x.fresh("i", sBV, 64)
 		fr.i.x.res.Draws = append(fr.i.x.res.Draws, Draw{Kind: "i64", Term: s.t})
 		return s
@@ -187,6 +192,13 @@ func init() {
 // intCmpF compares a signed 64-bit integer x with a finite float64 b exactly (over the
 // reals), without rounding x to float64.
 func intCmpF(x, b sym, op string) sym {
+	if x.k == sInt || b.k == sReal {
+		xi := toInt(x, true)
+		br := toReal(b)
+		xs := "(* " + gridScale().String() + " " + xi.t + ")"
+		rel := map[string]string{"ge": ">=", "gt": ">", "le": "<=", "lt": "<"}[op]
+		return mkBool("(" + rel + " " + xs + " " + br.t + ")")
+	}
 	if x.k != sBV || x.w != 64 || b.k != sF64 {
 		panic(unsupported("intCmpF sorts"))
 	}
